@@ -23,6 +23,15 @@ class LemmaCtx(object):
         self.obligations.append(Obligation("lemma:%s/%s" % (self.name, clause), list(self.hyps) + list(extra_hyps), goal, kind="lemma"))
 
 
+def _prove_raw(self, clause, smt2_text, solver="cvc5-strings"):
+    """A lemma stated directly as an SMT-LIB query (must be unsat), e.g. in the theory of strings."""
+    txt = "; solver=%s\n%s" % (solver, smt2_text)
+    self.obligations.append(Obligation("lemma:%s/%s" % (self.name, clause), [], z3.BoolVal(False), info={"raw_smt2": txt}, kind="lemma"))
+
+
+LemmaCtx.prove_raw = _prove_raw
+
+
 def gen_lemma(registry, name):
     rep = FunctionReport("lemma:" + name)
     lem = registry.lemmas.get(name)
